@@ -43,6 +43,21 @@ func genNodeCase(seed uint64, tier, focus, variant string) *simk.Case {
 	c.Cfg["inspect_all"] = cfgR.Bool(0.3)
 	conc := cfgR.Bool(0.4)
 	c.Cfg["concurrent"] = conc
+	if focus == "C19" {
+		consts := []float64{0, 1, 5e-324, 1e-300, 0.5, 0.25, 0.75, 0.98, 0.999999, 0.01}
+		pick := func() float64 {
+			if cfgR.Bool(0.5) {
+				return consts[cfgR.Intn(len(consts))]
+			}
+			return cfgR.Float()
+		}
+		c.Cfg["p_init"], c.Cfg["beta"], c.Cfg["gamma"] = pick(), pick(), pick()
+		c.Cfg["age_interval"] = cfgR.PickS("1s", "2s", "5s", "30s")
+		if np < 2 {
+			np = cfgR.Range(2, 4)
+			c.Cfg["peers"] = np
+		}
+	}
 	nb := r.Range(1, 6)
 	ex := nodeExtra{}
 	for i := 0; i < nb; i++ {
@@ -83,8 +98,30 @@ func genNodeCase(seed uint64, tier, focus, variant string) *simk.Case {
 		nops = r.Range(20, 60)
 	}
 	injected := map[int]bool{}
+	if focus == "C19" {
+		nops = r.Range(10, 80)
+		if tier == "thorough" && r.Bool(0.3) {
+			nops = r.Range(80, 400)
+		}
+	}
 	for len(c.Ops) < nops {
 		x := r.Intn(100)
+		if focus == "C19" && r.Bool(0.35) && np > 0 {
+			var xs []int
+			for k := r.Range(1, 4); k > 0; k-- {
+				d := r.Range(1, 3)
+				if r.Bool(0.3) {
+					d = -r.Range(1, np)
+				}
+				xs = append(xs, d, r.Pick(0, 1, 2, 3, 4, 5, 10+r.Intn(990), 10+r.Intn(990)))
+			}
+			op := simk.Op{K: "vec", P: r.Range(1, np), X: xs}
+			if r.Bool(0.1) {
+				op.M = 1
+			}
+			c.Ops = append(c.Ops, op)
+			continue
+		}
 		switch {
 		case x < 22 && np > 0:
 			c.Ops = append(c.Ops, simk.Op{K: "peer_up", P: r.Range(1, np)})
@@ -161,6 +198,14 @@ func genSpec(r *simk.Rand, i, np int, focus, algo string) BSpec {
 	}
 	if focus == "C07" {
 		sp.Dst = simNodeEID + "app"
+	}
+	if focus == "C19" {
+		// endpoints that summary vectors talk about
+		if np > 0 && r.Bool(0.3) {
+			sp.Dst = fmt.Sprintf("dtn://p%d/", r.Range(1, np))
+		} else {
+			sp.Dst = fmt.Sprintf("dtn://r%d/", r.Range(1, 3))
+		}
 	}
 	// origin
 	if r.Bool(0.5) {
